@@ -165,8 +165,13 @@ struct Kernel {
                                                      : ~a;
             using Res = decltype(expect);
             Res got{};
+            bool truth_ok = true;
             bool ok = guard(o, [&] {
                 WL wa{a};
+                if constexpr (Op == POS) {
+                    // the logical forms go through the contextual conversion to bool: !x, x ? .. : .., static_cast<bool>(x)
+                    if constexpr (requires { !wa; }) truth_ok = ((!wa) == (!a)) && ((wa ? 1 : 2) == (a ? 1 : 2)) && (static_cast<bool>(wa) == static_cast<bool>(a));
+                }
                 if constexpr (Op == NEG) {
                     auto r = -wa;
                     static_assert(std::is_same_v<std::remove_cvref_t<decltype(cnl::unwrap(r))>, Res>);
@@ -184,6 +189,7 @@ struct Kernel {
                 return;
             }
             if (got != expect) return o.fail("op" + on + "/value-mismatch", "expected " + istr(expect) + " got " + istr(got));
+            if (!truth_ok) return o.fail("op!/truth-value-mismatch", "!x, x ? a : b or static_cast<bool>(x) differs from the built-in for " + istr(a));
         } else if constexpr (Op >= A_ADD && Op <= A_SHR) {
             if constexpr (!can_assign<Op, WL, WR>) {
                 return o.discard("operator-not-provided");
